@@ -48,9 +48,12 @@ type authn struct {
 }
 
 type creds struct {
-	Authz   string // class of the Authorization header, see authzKinds
-	Session string // none valid invalid remotefail
-	JWKS    string // ok fail
+	// SchemeCase: how the authentication scheme is spelled ("" as usual, "lower", "upper"); RFC 7235, section 2.1:
+	// the scheme is case-insensitive, so the credentials are of the same kind in every spelling
+	SchemeCase string
+	Authz      string // class of the Authorization header, see authzKinds
+	Session    string // none valid invalid remotefail
+	JWKS       string // ok fail
 }
 
 var authzKinds = []string{
@@ -370,9 +373,10 @@ func TestFallbackOnlyOnMissingCredentialsOrOptIn(t *testing.T) {
 	rapid.Check(t, func(t *rapid.T) {
 		chain := genChain(t)
 		c := creds{
-			Authz:   rapid.SampledFrom(authzKinds).Draw(t, "authz"),
-			Session: rapid.SampledFrom([]string{"none", "none", "valid", "invalid", "remotefail"}).Draw(t, "session"),
-			JWKS:    rapid.SampledFrom([]string{"ok", "ok", "ok", "fail"}).Draw(t, "jwks"),
+			SchemeCase: rapid.SampledFrom([]string{"", "", "", "lower", "upper"}).Draw(t, "schemeCase"),
+			Authz:      rapid.SampledFrom(authzKinds).Draw(t, "authz"),
+			Session:    rapid.SampledFrom([]string{"none", "none", "valid", "invalid", "remotefail"}).Draw(t, "session"),
+			JWKS:       rapid.SampledFrom([]string{"ok", "ok", "ok", "fail"}).Draw(t, "jwks"),
 		}
 
 		conf := vkit.DefaultConf()
@@ -409,8 +413,19 @@ func TestFallbackOnlyOnMissingCredentialsOrOptIn(t *testing.T) {
 
 		lr := vkit.LogicalRequest{Method: "GET", Scheme: "http", Host: "svc.example.com", RawPath: "/x"}
 		if h, ok := authzHeader(c.Authz); ok {
+			if scheme, rest, found := strings.Cut(h, " "); found {
+				switch c.SchemeCase {
+				case "lower":
+					h = strings.ToLower(scheme) + " " + rest
+				case "upper":
+					h = strings.ToUpper(scheme) + " " + rest
+				}
+			}
+
 			lr.Headers = append(lr.Headers, vkit.HeaderKV{Name: "Authorization", Value: h})
 		}
+
+		vkit.S.LabelIf(c.SchemeCase != "" && c.Authz != "none", "scheme_spelled_in_"+c.SchemeCase+"_case")
 
 		switch c.Session {
 		case "valid":
